@@ -2210,6 +2210,43 @@ fn prop_corpus(s: Stream) -> Vec<KCase> {
 }
 
 /// case `j` of a property's KSP stream: a pure function of (stream, seed, tier, j)
+/// the edges of a shortest walk by length from `from` to `to` (Bellman–Ford over the edge list; empty when
+/// there is none) — used only to PLACE restrictions where they matter, never as an expectation
+fn shortest_by_length(edges: &[(usize, usize, f64)], n_v: usize, from: usize, to: usize) -> Vec<usize> {
+    let mut dist = vec![f64::INFINITY; n_v];
+    let mut pred: Vec<Option<usize>> = vec![None; n_v];
+    if from >= n_v || to >= n_v {
+        return vec![];
+    }
+    dist[from] = 0.0;
+    for _ in 0..n_v {
+        let mut changed = false;
+        for (e, (u, v, l)) in edges.iter().enumerate() {
+            if *u < n_v && *v < n_v && l.is_finite() && *l >= 0.0 && dist[*u] + *l < dist[*v] {
+                dist[*v] = dist[*u] + *l;
+                pred[*v] = Some(e);
+                changed = true;
+            }
+        }
+        if !changed {
+            break;
+        }
+    }
+    let mut path = vec![];
+    let mut v = to;
+    while v != from {
+        match pred[v] {
+            Some(e) if path.len() <= n_v => {
+                path.push(e);
+                v = edges[e].0;
+            }
+            _ => return vec![],
+        }
+    }
+    path.reverse();
+    path
+}
+
 pub fn prop_case_at(s: Stream, seed: u64, quick: bool, j: usize) -> KCase {
     let corpus = prop_corpus(s);
     if j < corpus.len() {
@@ -2277,6 +2314,24 @@ pub fn prop_case_at(s: Stream, seed: u64, quick: bool, j: usize) -> KCase {
                         ps.push((a, *rng.pick(&nexts)));
                     }
                 }
+                // restricted turns where a detour LEAVES the shortest route (by length): the pair (an edge of that
+                // route, an out-edge of its head that is not the route's next edge) is the turn a spur path of Yen's
+                // algorithm, or the second half of a single-via route, takes right at its junction with the root
+                if rng.chance(1, 2) {
+                    let (from, to) = if base.edge_oriented {
+                        (base.edges[base.source].1, base.target.map(|t| base.edges[t].0).unwrap_or(0))
+                    } else {
+                        (base.source, base.target.unwrap_or(0))
+                    };
+                    let path = shortest_by_length(&base.edges, n_v, from, to);
+                    for (i, a) in path.iter().enumerate() {
+                        let next_on_path = path.get(i + 1).copied();
+                        let detours: Vec<usize> = (0..n_e).filter(|e| base.edges[*e].0 == base.edges[*a].1 && Some(*e) != next_on_path).collect();
+                        if !detours.is_empty() && rng.chance(1, 2) {
+                            ps.push((*a, *rng.pick(&detours)));
+                        }
+                    }
+                }
                 if !ps.is_empty() {
                     base.frontier.push(Fr::TurnRestriction(ps));
                 }
@@ -2293,7 +2348,7 @@ pub fn prop_case_at(s: Stream, seed: u64, quick: bool, j: usize) -> KCase {
         }
         _ => {}
     }
-    let yen = rng.chance(1, if s == Stream::C10 { 3 } else { 6 });
+    let yen = rng.chance(1, if s == Stream::C10 || s == Stream::C04 { 3 } else { 6 });
     let k_default = *rng.pick(&[1usize, 2, 2, 3, 3, 4, 5, 6]);
     let sim = match rng.below(6) {
         0 | 1 | 2 => None,
